@@ -99,6 +99,7 @@ Print Assumptions distinct_run.
    sample per entry of the space, and then gives up (STOPPED) - it never loops *)
 Section effort.
 Variable samp : nat → Z → value.
+Variable draw : nat → hp → value.
 Variable mc : nat.
 Lemma sample_pass_seed sp : ∀ idx s seed, (seed ≤ (sample_pass samp sp idx s seed).2 ≤ seed + Z.of_nat (length sp))%Z.
 Proof.
@@ -108,13 +109,13 @@ Proof.
     |specialize (IH (S idx) (match register s h true with Ok (s', _) => s' | Err _ => s end) seed)]; lia.
 Qed.
 Theorem random_values_effort fuel sp tried : ∀ seed col r seed',
-  random_values samp mc fuel sp tried seed col = (r, seed') →
+  random_values samp draw mc fuel sp tried seed col = (r, seed') →
   (seed ≤ seed' ≤ seed + Z.of_nat fuel * Z.of_nat (length sp))%Z.
 Proof.
   induction fuel as [|fuel IH]; intros seed col r seed' H; cbn [random_values] in H; [inversion H; lia|].
   pose proof (sample_pass_seed sp 0 empty_hps seed) as Hp.
   destruct (sample_pass samp sp 0 empty_hps seed) as [s sd] eqn:Es. cbn in Hp.
-  destruct (duplicate tried (s_values s)).
+  cbv zeta in H. destruct (duplicate tried (ensure_go draw sp sp (s_values s) 0).1).
   - destruct (Nat.ltb mc (S col)); [inversion H; subst; nia|]. specialize (IH _ _ _ _ H). nia.
   - inversion H; subst. nia.
 Qed.
